@@ -111,10 +111,16 @@ def run_tlc(spec, cfg, scratch, workers=None, dump=False, simulate=None, depth=N
 
 
 def sany(path):
-    p = subprocess.run(['java', '-DTLA-Library=' + os.pathsep.join([SPEC_DIR, MC_DIR, TRACE_DIR]),
-                        '-cp', '/opt/veriftools/tla/tla2tools.jar:/opt/veriftools/tla/CommunityModules-deps.jar',
-                        'tla2sany.SANY', path], cwd=os.path.dirname(path), stdout=subprocess.PIPE,
-                       stderr=subprocess.STDOUT, text=True)
+    import shutil
+    import tempfile
+    tmp = tempfile.mkdtemp(prefix='sany_')      # SANY unpacks its standard modules into java.io.tmpdir and leaves them there
+    try:
+        p = subprocess.run(['java', '-Djava.io.tmpdir=' + tmp, '-DTLA-Library=' + os.pathsep.join([SPEC_DIR, MC_DIR, TRACE_DIR]),
+                            '-cp', '/opt/veriftools/tla/tla2tools.jar:/opt/veriftools/tla/CommunityModules-deps.jar',
+                            'tla2sany.SANY', path], cwd=os.path.dirname(path), stdout=subprocess.PIPE,
+                           stderr=subprocess.STDOUT, text=True)
+    finally:
+        shutil.rmtree(tmp, ignore_errors=True)
     ok = p.returncode == 0 and 'Semantic errors' not in p.stdout and '*** Errors' not in p.stdout \
         and 'Parse Error' not in p.stdout and 'Fatal errors' not in p.stdout
     return ok, p.stdout
